@@ -58,6 +58,8 @@ class Ctx:
                 todo += [x.strip().split(' ')[0] for x in grp.split(',')]
         src = ''.join(open(os.path.join(here, m + '.py')).read()
                       for m in sorted(mods))
+        # names wrapped in opt(...) are only mentioned defensively
+        src = re.sub(r"""opt\(\s*['"][A-Za-z_.]+['"]\s*\)""", '', src)
         quoted = set(re.findall(r"""['"]([A-Za-z_.]+)['"]""", src))
         for q in canon:
             cls, _, name = q.rpartition('.')
@@ -71,3 +73,9 @@ class Ctx:
 
 def module_for(pid):
     return importlib.import_module('fbsa.rules.' + pid.lower())
+
+
+def opt(name):
+    """Marks a function name that a rule only mentions defensively (its
+    absence is fine); see Ctx.validate_anchors."""
+    return name
